@@ -604,6 +604,7 @@ void run03(const Plan& p) {
   const int U = (int)std::min<int64_t>(200, std::max<int64_t>(1, p.get("universe", 8)));
   int prefill = (int)std::min<int64_t>(120, std::max<int64_t>(0, p.get("prefill", 0)));
   x.hsync = p.get("hsync", 0) != 0;
+  if (p.get("ryw", 0)) probe("growth_boundary_read_your_write_shape");
   // Happens-before detector on the value storage (tsm flavour only: in the ship
   // flavour the group is read with a plain 16-byte load, which the simulator's
   // clock rules do not treat as an atomic load).  The simulator keeps release
@@ -935,6 +936,35 @@ void gen03(Rng& r, Plan& p, const GenParams& gp) {
   for (int i = 0; i < 3; i++) hot[i] = (int)r.below((uint64_t)U);
   int hot_num = cont == 1 ? 1 : 2;  // fixed tables: mostly distinct keys so that the table really fills up
   int opid = 0;
+  // growth-boundary read-your-write shape (growing containers, a fifth of the
+  // runs): the chain is prefilled to 0-3 slots below a table boundary, every
+  // thread inserts fresh keys of its own and looks each one up right after its
+  // insertion returned, and a thread can be stalled between publishing a slot
+  // and whatever bookkeeping follows (post_pts). Reaches "the inserter that
+  // completed table N is delayed while the next key already lives in N+1"
+  // (seeded change C03-8: find() stopped walking at a table whose size counter
+  // was still one short).
+  if (cont == 0 && r.chance(1, 5)) {
+    int b1 = init == 0 ? 32 : cap0, b2 = init == 0 ? 96 : cap0 * 3;
+    prefill = std::max(0, (r.chance(2, 3) ? b1 : b2) - (int)r.range(0, 3));
+    p.cfg["prefill"] = prefill;
+    p.cfg["post_pts"] = 1;
+    p.cfg["post_stall"] = 12;
+    p.cfg["ryw"] = 1;
+    if (U < 40) { U = 40; p.cfg["universe"] = U; }
+    static const int ins[] = {K_EMPLACE, K_EMPLACE, K_INSERT, K_TRY_EMPLACE, K_INDEX};
+    static const int looks[] = {K_FIND, K_FIND, K_CONTAINS, K_COUNT};
+    for (int t = 1; t <= nthreads; t++) {
+      int npairs = (int)r.range(1, 3);
+      for (int i = 0; i < npairs; i++) {
+        Op a; a.kind = ins[r.below(5)]; a.a = (t - 1) * 8 + i; a.b = (int64_t)r.below(4); a.id = opid++;
+        Op f; f.kind = looks[r.below(4)]; f.a = a.a; f.b = (int64_t)r.below(4); f.id = opid++;
+        p.threads[(size_t)t].push_back(a);
+        p.threads[(size_t)t].push_back(f);
+      }
+    }
+    return;
+  }
   for (int t = 1; t <= nthreads; t++) {
     int nops = (int)r.range(3, 10);
     for (int i = 0; i < nops; i++) {
